@@ -2341,3 +2341,22 @@ Proof.
   destruct (gc_index_digs succ subject manifest H1 H2 st ords Ho) as (ix' & g & E & H).
   rewrite E. cbn [fst idx]. exact H.
 Qed.
+
+(* non-trivial instances of the new hypotheses / operations *)
+Definition cancel_pre := [PO (OPush 0); PO (OPush 1); PO (OPush 2); PO (OPush 5); PO (OPush 7); PO (OTag 1 0)].
+Definition cancel_order := [SBlob 5; SBlob 0; SBlob 7; SBlob 2; SBlob 1].
+Lemma example_cancel_resume :
+  (* 2 is a referrer of the tagged 1 (kept); 5 and its referrer 7 are garbage *)
+  blobs (mem (prun_w (cancel_pre ++ [PGCCancel false cancel_order 1]))) = [7; 2; 1; 0] /\
+  snd (pstep succ_w subject_w manifest_w cfg_fixed true (prun_w cancel_pre) (PGCCancel false cancel_order 1)) = ECanceled /\
+  blobs (mem (prun_w (cancel_pre ++ [PGCCancel false cancel_order 3]))) = [2; 1; 0] /\
+  blobs (mem (prun_w (cancel_pre ++ [PGCCancel false cancel_order 1; PO OGC]))) = [2; 1; 0] /\
+  blobs (mem (prun_w (cancel_pre ++ [PO OGC]))) = [2; 1; 0] /\
+  disk (prun_w (cancel_pre ++ [PGCCancel false cancel_order 1])) = disk (prun_w (cancel_pre ++ [PO OGC])).
+Proof. vm_compute. repeat split. Qed.
+
+Lemma example_pstate_ok : pstate_ok (prun_w (cancel_pre ++ [PGCCancel false cancel_order 1])).
+Proof.
+  apply (prun_ok succ_w subject_w manifest_w succ_w_lt subj_w_succ true).
+  repeat constructor; discriminate.
+Qed.
